@@ -249,9 +249,15 @@ IpInt == /\ IsIpInt
          /\ ipsince' = IF ipint = 0 THEN T ELSE T + ipint
          /\ cmds' = Append(cmds, Ev)
          /\ UNCHANGED <<scen, hosts, myhost, sys, sels, snaps, reg, inbox, ptrOk, ptrIf, lastRes, open, owed, down, viol, hits>>
+(* a service registered with automatic addressing is published with every address that is certainly enabled *)
+IsAutoReg == Ev.e = "call" /\ Ev.fn = "register" /\ Ev.res = "ok" /\ Ev.args.auto
 Call == /\ Ev.e = "call" /\ ~IsSelect /\ ~IsIpInt
         /\ cmds' = Append(cmds, Ev)
-        /\ UNCHANGED <<scen, hosts, myhost, sys, sels, snaps, ipint, ipsince, reg, inbox, ptrOk, ptrIf, lastRes, open, owed, down, viol, hits>>
+        /\ owed' = IF IsAutoReg /\ ~down
+                   THEN owed \cup {[kind |-> "follow", fnk |-> Ev.args.fnl.k, ip |-> a.ip, idx |-> a.idx, v4 |-> a.v4, due |-> T + 3000, key |-> <<>>, ch |-> 0]
+                                     : a \in MustAt(T)}
+                   ELSE owed
+        /\ UNCHANGED <<scen, hosts, myhost, sys, sels, snaps, ipint, ipsince, reg, inbox, ptrOk, ptrIf, lastRes, open, down, viol, hits>>
 Deliver == /\ Ev.e = "deliver"
            /\ inbox' = Append(inbox, Ev)
            /\ UNCHANGED <<scen, hosts, myhost, sys, sels, snaps, ipint, ipsince, reg, cmds, ptrOk, ptrIf, lastRes, open, owed, down, viol, hits>>
